@@ -186,6 +186,16 @@ def shrink_candidates(desc):
         return
     if tag == 'bad':
         return
+    if tag == 'wrap':
+        yield copy.deepcopy(desc[3])
+        for d in (0, 1, desc[2] // 2, desc[2] - 1):
+            if 0 <= d < desc[2]:
+                yield ['wrap', desc[1], d, copy.deepcopy(desc[3])]
+        if ',' in desc[1]:
+            yield ['wrap', desc[1].split(',')[0], desc[2], copy.deepcopy(desc[3])]
+        for sc in shrink_candidates(desc[3]):
+            yield ['wrap', desc[1], desc[2], sc]
+        return
     if tag in ('L', 'sub'):
         yield list(LEAF0)
         return
